@@ -4,7 +4,7 @@
    water_isotope, water_activity are the textbook definitions of coq/C16/Spec.v. *)
 From Coq Require Import Reals QArith Qreals Qabs List String.
 From Coquelicot Require Import Coquelicot.
-From IPV Require Import Base.RExpr Base.IntervalEval C16.Spec C16.Checker C16.GammaProofs C16.PitzerTerms
+From IPV Require Import Base.RExpr Base.IntervalEval C16.Spec C16.Checker C16.GammaProofs C16.GammaDeriv C16.GammaLLNL C16.GammaAW C16.PitzerTerms
   Gen.Gen_C16_gammas Gen.Gen_C16_aw Gen.Gen_C16_pitzer Gen.Gen_C16_sit.
 Import ListNotations.
 Local Open Scope R_scope.
